@@ -18,7 +18,6 @@ From Corgi Require Import Lib.OptionMonad Model.Scalar Model.Arr Model.Engine Mo
 (** the update of any parameter list, any shapes, any frozen subset *)
 Theorem C13_update :
   forall (F : Type) (O : ScalarOps F) (s : state) (lr : F) (params : list handle),
-         NoDup (map e_node (unfrozen s params)) ->
          gd_pre s params ->
          exists (s' : state) (out : list handle),
            gd_update O s lr params = Some (s', out) /\ gd_post O s lr params s' out.
@@ -44,7 +43,6 @@ Proof. exact @gd_update_all_frozen. Qed.
 (** Model::update re-binds the layer parameters position-wise *)
 Theorem C13_model_update :
   forall (F : Type) (O0 : ScalarOps F) (s : state),
-         NoDup (map e_node (unfrozen s (model_params s))) ->
          gd_pre s (model_params s) ->
          exists (s1 : state) (out : list handle),
            gd_update O0 s (st_lr s) (model_params s) = Some (s1, out) /\
